@@ -182,8 +182,25 @@ impl Property for C18 {
                 format!("env.{}", crate::reflex::quote(n))
             }
         };
-        let case = match t.weighted(&[8, 5, 3, 2]) {
-            0 if !env.is_empty() => {
+        let case = match t.weighted(&[8, 5, 3, 2, 6]) {
+            4 if env.len() >= 2 => {
+                // several different variables in one program
+                let i = t.choice(env.len());
+                let j = (i + 1 + t.choice(env.len() - 1)) % env.len();
+                let (k1, v1) = env[i].clone();
+                let (k2, v2) = env[j].clone();
+                let (e1, e2) = (sel(&k1, &mut t), sel(&k2, &mut t));
+                let (src, want, label) = match t.choice(5) {
+                    0 => (format!("let a = {};\nlet b = {};\nout json {{v = a, w = b}};\n", e1, e2), serde_json::json!({"v": v1, "w": v2}), "read-two-at-statement-level"),
+                    1 => (format!("out json {{v = {}, w = {}}};\n", e1, e2), serde_json::json!({"v": v1, "w": v2}), "read-two-in-a-tuple"),
+                    2 => (format!("out json {{v = [{}, {}]}};\n", e1, e2), serde_json::json!({"v": [v1, v2]}), "read-two-in-a-list"),
+                    3 => (format!("let both = {} + {};\nout json {{v = both}};\n", e1, e2), serde_json::json!({"v": format!("{}{}", v1, v2)}), "read-two-in-an-expression"),
+                    _ => (format!("let a = {};\nlet f = func () => {};\nout json {{v = a, w = f(), x = {}}};\n", e1, e2, e1), serde_json::json!({"v": v1, "w": v2, "x": v1}), "read-two-statement-and-function"),
+                };
+                let nt = true;
+                Case { env: env.clone(), src, strict, want: Ok(want), label, nontrivial: nt }
+            }
+            0 | 4 if !env.is_empty() => {
                 // read a set variable
                 let (k, v) = env[t.choice(env.len())].clone();
                 let e = sel(&k, &mut t);
@@ -197,7 +214,7 @@ impl Property for C18 {
                 let nt = !v.is_ascii() || v.chars().any(|c| "'\"$`\\\n ".contains(c));
                 Case { env: env.clone(), src, strict, want: Ok(serde_json::json!({"v": v})), label, nontrivial: nt }
             }
-            1 | 0 => {
+            1 | 0 | 4 => {
                 // read an unset variable
                 let name = loop {
                     let k = gen_name(&mut t, &env);
